@@ -152,6 +152,7 @@ type Host struct {
 	HostID   primitive.UUID
 	DC       string                    // data center of this host ("" = the cluster's)
 	MaxVer   primitive.ProtocolVersion // this host's own maximum version (0 = the cluster's)
+	reject   bool                      // accept connections and close them at once (records the attempt times)
 }
 
 type Conn struct {
@@ -527,6 +528,22 @@ func (h *Host) Stop() {
 	}
 }
 
+// SetReject: the host keeps listening but closes every new connection at once and drops the existing ones
+// ("process hung up"); the times of the connection attempts are recorded.
+func (h *Host) SetReject(b bool) {
+	h.mu.Lock()
+	h.reject = b
+	if b {
+		h.Accepts = nil
+	}
+	h.mu.Unlock()
+	if b {
+		h.DropConns(nil)
+	}
+}
+
+func (h *Host) Rejecting() bool { h.mu.Lock(); defer h.mu.Unlock(); return h.reject }
+
 func (h *Host) Up() bool { h.mu.Lock(); defer h.mu.Unlock(); return h.up }
 
 // Forget drops prepared statements ("restart" as far as the prepared cache goes).
@@ -594,6 +611,12 @@ func (h *Host) serve(ln net.Listener) {
 		c := &Conn{h: h, ID: id, nc: nc, Registered: map[primitive.EventType]bool{}}
 		h.mu.Lock()
 		if !h.up {
+			h.mu.Unlock()
+			nc.Close()
+			continue
+		}
+		if h.reject {
+			h.Accepts = append(h.Accepts, time.Now())
 			h.mu.Unlock()
 			nc.Close()
 			continue
